@@ -323,6 +323,8 @@ def static_of(pt, els):
 
 
 def fu(q):
+    if q is None or not hasattr(q, 'value'):
+        return [float('nan'), 'missing:' + type(q).__name__]      # never equal to a model value
     return [float(q.value), q.unit]
 
 
@@ -435,14 +437,14 @@ def cstop(s):
 def cop(op):
     if op[0] == 'run':
         ctl = 'None' if op[3] is None else f'(Some {clist([crule(r) for r in op[3]])})'
-        return f'(SRun O {cq(op[1])} {cq(op[2])} {ctl} {copt(op[4], cstop)})'
+        return f'(@SRun FX {cq(op[1])} {cq(op[2])} {ctl} {copt(op[4], cstop)})'
     if op[0] == 'reset':
-        return '(SReset O)'
+        return '(@SReset FX)'
     if op[0] == 'newsolver':
-        return '(SNewSolver O)'
+        return '(@SNewSolver FX)'
     if op[0] == 'setinit':
-        return f'(SSetInit O {cq(op[1])} {cq(op[2])})'
-    return f'(SSetPwm O {flit(op[1])})'
+        return f'(@SSetInit FX {cq(op[1])} {cq(op[2])})'
+    return f'(@SSetPwm FX {flit(op[1])})'
 
 
 def crow(r):
